@@ -250,7 +250,7 @@ func (l *Lexer) shiftRawText() []byte {
 						return l.r.Shift()
 					}
 				} else if l.rawTag == Script && l.r.Peek(1) == '!' && l.r.Peek(2) == '-' && l.r.Peek(3) == '-' {
-					l.r.Move(4)
+					l.r.Move(2) // the dashes may be part of the closing -->, as in <!-->
 					inScript := false
 					for {
 						c := l.r.Peek(0)
